@@ -26,6 +26,9 @@ ASSUMPTIONS = ['unspecified situations are not generated or are counted as incon
                '(or two items of equal priority) commanding different values for one target at one instant; "=" / "<>" '
                'on time inside rules',
                'targets are pipes and a TCV in a tank-less network, so no internal status logic can override a command',
+               'half of the cases with a TCV also judge its status: a setting command (simple control or THEN action) counts as a '
+               'command "status ACTIVE" with the priority of its parent; a setting and a status command for one valve in one '
+               'clause, and settings in ELSE branches next to a status target, are not generated (unspecified)',
                'EPANET cross-check of the reference only where both semantics coincide by construction (rule step divides '
                'the hydraulic step and every control instant; instants multiples of 900 s, which the hh:mm:ss parser of EPANET reads exactly; no same-instant conflicts '
                'between simple controls, which EPANET orders by file position instead of priority)']
@@ -37,6 +40,10 @@ OPS = ['>', '>=', '<', '<=']
 
 
 # ------------------------------------------------------------------------------------------ strategy
+def _values_of(tg):
+    return PIPE_VALUES if tg['attr'] == 'status' else (['CLOSED', 'ACTIVE'] if tg['attr'] == 'vstatus' else SETTINGS)
+
+
 @st.composite
 def _instant(draw, opts, clock):
     hyd, rs = opts['hyd'], opts['rule']
@@ -101,17 +108,21 @@ def strategy(draw, tier='quick'):
                for i in range(n)]
     if tcv:
         targets.append({'name': 'V1', 'attr': 'setting', 'init': draw(st.sampled_from(SETTINGS))})
+        if not ep and draw(st.booleans()):
+            # the status of the same valve as a second target: a setting command implies status ACTIVE (the simulator
+            # derives a companion command with the priority of its parent), a status command may say CLOSED or ACTIVE
+            targets.append({'name': 'V1', 'attr': 'vstatus', 'init': 'ACTIVE'})
     nt = len(targets)
 
     def action(rule=False):
         i = draw(st.integers(0, min(nt - 1, 2)))     # few targets so that items interact
         if ep:
             i = draw(st.integers(0, 1)) if rule else draw(st.integers(2, nt - 1))   # rules and controls on disjoint targets
-            v = draw(st.sampled_from(PIPE_VALUES if targets[i]['attr'] == 'status' else SETTINGS))
+            v = draw(st.sampled_from(_values_of(targets[i])))
             return i, v
         if tcv and draw(st.integers(0, 3)) == 0:
-            i = nt - 1
-        v = draw(st.sampled_from(PIPE_VALUES if targets[i]['attr'] == 'status' else SETTINGS))
+            i = nt - 1 - draw(st.integers(0, 1 if targets[-1]['attr'] == 'vstatus' else 0))
+        v = draw(st.sampled_from(_values_of(targets[i])))
         return i, v
 
     controls = []
@@ -128,7 +139,7 @@ def strategy(draw, tier='quick'):
     # a deliberate same-instant conflict between two simple controls (distinct priorities)
     if not ep and draw(st.integers(0, 3)) == 0 and controls:
         c0 = controls[0]
-        vals = PIPE_VALUES if targets[c0['target']]['attr'] == 'status' else SETTINGS
+        vals = _values_of(targets[c0['target']])
         other = [v for v in vals if v != c0['value']]
         pr = draw(st.sampled_from([p for p in range(7) if p != c0['priority']]))
         controls.append({'kind': c0['kind'], 'at': c0['at'], 'target': c0['target'], 'value': other[0], 'priority': pr})
@@ -138,11 +149,21 @@ def strategy(draw, tier='quick'):
         els = []
         if draw(st.booleans()):
             for i, v in then:
-                vals = PIPE_VALUES if targets[i]['attr'] == 'status' else SETTINGS
+                vals = _values_of(targets[i])
                 els.append([i, draw(st.sampled_from([x for x in vals if x != v]))])
         # one action per target inside a clause
         then = list({i: [i, v] for i, v in then}.values())
         els = list({i: [i, v] for i, v in els}.values())
+        # a setting and a status command for the same valve inside one clause: the derived status command of the setting
+        # is a rule of its own with the same priority - which of the two wins is not specified; not generated
+        for clause in (then, els):
+            if any(targets[i]['attr'] == 'setting' for i, _v in clause):
+                clause[:] = [a for a in clause if targets[a[0]]['attr'] != 'vstatus']
+        if any(t['attr'] == 'vstatus' for t in targets):
+            # WNTR derives the 'status ACTIVE' command of a setting action for THEN actions only; what a setting in an
+            # ELSE branch does to the status of a closed valve is not specified anywhere: not generated next to a
+            # status target
+            els = [a for a in els if targets[a[0]]['attr'] != 'setting']
         rules.append({'cond': draw(_cond(opts)), 'then': then, 'else': els,
                       'priority': draw(st.sampled_from([1, 2, 3, 4, 5, 6]))})
     # a simple control and a rule commanding one target at one instant is unspecified: move such controls off the
@@ -189,7 +210,7 @@ def build_wn(case):
     for i in range(n):
         wn.add_junction('J%d' % (i + 1), base_demand=0.001, elevation=5.0 + i)
     wn.add_pipe('TRUNK', 'R', 'J1', length=100, diameter=0.4, roughness=120)
-    inits = {tg['name']: tg['init'] for tg in case['targets']}
+    inits = {tg['name']: tg['init'] for tg in case['targets'] if tg['attr'] != 'vstatus'}
     for i in range(n):
         a, b = 'J%d' % (i + 1), 'J%d' % ((i + 1) % n + 1)
         wn.add_pipe('P%d' % (i + 1), a, b, length=200, diameter=0.2, roughness=110,
@@ -205,6 +226,8 @@ def build_wn(case):
         link = wn.get_link(tg['name'])
         if tg['attr'] == 'status':
             return ControlAction(link, 'status', LinkStatus.Open if v == 'OPEN' else LinkStatus.Closed)
+        if tg['attr'] == 'vstatus':
+            return ControlAction(link, 'status', LinkStatus.Active if v == 'ACTIVE' else LinkStatus.Closed)
         return ControlAction(link, 'setting', float(v))
 
     def cond(c):
@@ -233,17 +256,41 @@ def build_wn(case):
 
 
 def schedule_of(case):
-    return {'opts': case['opts'], 'targets': case['targets'], 'controls': case['controls'], 'rules': case['rules']}
+    """the schedule the reference timeline is computed from; with a valve-status target present every setting command
+    on that valve also commands status ACTIVE at the same instant with the same priority"""
+    tg = case['targets']
+    iv = [i for i, t in enumerate(tg) if t['attr'] == 'vstatus']
+    if not iv:
+        return {'opts': case['opts'], 'targets': tg, 'controls': case['controls'], 'rules': case['rules']}
+    iv = iv[0]
+    is_set = lambda i: tg[i]['attr'] == 'setting' and tg[i]['name'] == tg[iv]['name']
+    controls = []
+    for c in case['controls']:
+        controls.append(c)
+        if is_set(c['target']):
+            controls.append(dict(c, target=iv, value='ACTIVE'))
+    rules = []
+    for r in case['rules']:
+        r2 = dict(r)
+        for key in ('then', 'else'):
+            acts = [list(a) for a in r[key]]
+            if any(is_set(i) for i, _v in acts) and not any(i == iv for i, _v in acts):
+                acts.append([iv, 'ACTIVE'])
+            r2[key] = acts
+        rules.append(r2)
+    return {'opts': case['opts'], 'targets': tg, 'controls': controls, 'rules': rules}
 
 
 def _val_eq(tg, reported, want):
     if tg['attr'] == 'status':
         return int(round(reported)) == (1 if want == 'OPEN' else 0)
+    if tg['attr'] == 'vstatus':
+        return int(round(reported)) == {'CLOSED': 0, 'OPEN': 1, 'ACTIVE': 2}[want]
     return abs(reported - float(want)) <= 1e-9
 
 
 def _fmt(tg, reported):
-    if tg['attr'] == 'status':
+    if tg['attr'] in ('status', 'vstatus'):
         return {0: 'CLOSED', 1: 'OPEN', 2: 'ACTIVE'}.get(int(round(reported)), repr(reported))
     return '%g' % reported
 
@@ -255,6 +302,8 @@ def _hms(s):
 
 def epanet_comparable(case):
     o = case['opts']
+    if any(t['attr'] == 'vstatus' for t in case['targets']):
+        return False
     if o['hyd'] % o['rule'] != 0 and case['rules']:
         return False
     seen = set()
@@ -287,7 +336,7 @@ def epanet_comparable(case):
 def inp_text(case):
     o = case['opts']
     n = case['n']
-    inits = {tg['name']: tg['init'] for tg in case['targets']}
+    inits = {tg['name']: tg['init'] for tg in case['targets'] if tg['attr'] != 'vstatus'}
     L = ['[TITLE]', 'c04', '', '[JUNCTIONS]']
     for i in range(n):
         L.append('J%d %g 1.0' % (i + 1, 5.0 + i))
@@ -490,17 +539,17 @@ def check(case):
         return 'spurious_later/%s' % ('|'.join(sorted(srcs)) or 'nobody')
 
     def _txt(tg, v):
-        return v if tg['attr'] == 'status' else '%g' % float(v)
+        return v if tg['attr'] in ('status', 'vstatus') else '%g' % float(v)
 
     def _num(tg, txt):
-        if tg['attr'] == 'status':
+        if tg['attr'] in ('status', 'vstatus'):
             return {'OPEN': 1, 'CLOSED': 0}.get(txt, 2)
         return float(txt)
 
     for k, t in enumerate(times):
         want = T.state_at(sts, t)
         for ti, tg in enumerate(case['targets']):
-            got = run.link[tg['attr']][tg['name']][k]
+            got = run.link['status' if tg['attr'] == 'vstatus' else tg['attr']][tg['name']][k]
             if not _val_eq(tg, got, want[ti]):
                 got_txt = _fmt(tg, got)
                 return fail('timeline/' + culprit(t, ti, got_txt),
